@@ -511,6 +511,16 @@ public:
     double* SX=buffer+offset;
     double alpha;
     double range = t_end - t_start;
+    //averages of sin(alpha*t) and cos(alpha*t) over [t_start,t_end]; for
+    //coincident levels (alpha==0) the closed form is 0/0, so use its limit
+    auto avg_sin=[=](double alpha)->double{
+      double x=alpha*range;
+      return(x==0 ? sin(alpha*t_start) : (cos(alpha*t_start) - cos(alpha*t_end))/x);
+    };
+    auto avg_cos=[=](double alpha)->double{
+      double x=alpha*range;
+      return(x==0 ? cos(alpha*t_start) : (sin(alpha*t_end) - sin(alpha*t_start))/x);
+    };
 #include "SU_inc/PreEvolutionSelectAvgRange.txt"
   }
   
